@@ -1,0 +1,15 @@
+//go:build verif
+
+package rockredis
+
+// Exported wrappers for the verification harness (/verif, property C14). Built only with -tags verif.
+
+// VerifPurgeOldCheckpoint runs purgeOldCheckpoint on a directory.
+func VerifPurgeOldCheckpoint(keepNum int, checkpointDir string, latestSnapIndex uint64) {
+	purgeOldCheckpoint(keepNum, checkpointDir, latestSnapIndex)
+}
+
+// VerifIsSameSSTFile is the "keep this sst" decision of restoreFromPath (nil = same).
+func VerifIsSameSSTFile(f1 string, f2 string) error {
+	return isSameSSTFile(f1, f2)
+}
